@@ -266,7 +266,9 @@ func runConcWithFault(sc ConcScenario, hf *HandlerFault, prefix []int) (res *Con
 				}
 			}
 			if ti == 0 {
-				t0closed = sess.Ended // closed by the server, before the client hangs up
+				// closed by the server, before the client hangs up: the loop ended AND the client
+				// socket and the backend connections of this client were really closed
+				t0closed = sess.Ended && sess.Cli.Closed() && sess.L1c.LocalClosed && (sess.L2c == nil || sess.L2c.LocalClosed)
 			}
 			sess.Hangup()
 		})
